@@ -18,7 +18,7 @@ ALPHABETS = ["ab", "abc", "x", "01", "aeiou", "xyz ", "a.b*", "éü", "ABCdef123
              string.ascii_lowercase, string.digits, "a\nb", "[]^$", "日本", "hello world", "aab", "xyzzy",
              string.ascii_lowercase + string.hexdigits]
 NAMES = ["id", "name", "x", "y", "k", "items", "meta", "a b", "", "ключ", "a.b", "0", "type", "n1", "n2",
-         "n3", "it's", 'q"q', "line\nbreak"]
+         "n3", "it's", 'q"q', "line\nbreak", "{id}", "a{b}c", "{}", "%s", "{0}"]
 UUIDS = [_uuid.UUID("5a1f2e0c-9d3b-4c7a-8f21-0123456789ab"), _uuid.UUID("00000000-0000-4000-8000-000000000000"),
          _uuid.UUID("ffffffff-ffff-4fff-bfff-ffffffffffff")]
 DATETIMES = [_dt.datetime(2020, 1, 2, 3, 4, 5), _dt.datetime(1999, 12, 31, 23, 59, 59, 999999),
@@ -163,7 +163,7 @@ def rand_str(rng, alphabet, n):
 
 
 DEFAULT_CHARS = string.ascii_letters + string.digits + " -_"
-WIDE_CHARS = DEFAULT_CHARS + ".,:;!?/\\'\"\n\téüß日本"
+WIDE_CHARS = DEFAULT_CHARS + ".,:;!?/\\'\"\n\téüß日本\u0301\u2126"
 
 
 def gen_str(rng, prof, uniq=None):
